@@ -249,6 +249,16 @@ private theorem dns_refl {α : Type} [DecidableEq α] (fc fl fi : Field) (xs : L
   · simp only [bne_self_eq_false, Bool.false_eq_true, if_false]
     exact zip_self_flatMap _ (fun x => by simp) xs
 
+/-- The hypothesis `coherent` of `verify_refl` is needed, and acceptance does not imply it (F-21):
+    an RA that carries 2001:db8:0:1::/64 twice — 1 h / 1 h from a static stanza, 24 h / 4 h from a
+    `::/64` wildcard expanding onto the same /64 — is reported against itself, four times. -/
+theorem self_inconsistent_witness :
+    let p : IP := { val := 0x20010db8000000010000000000000000 }
+    let ra : RA := { hopLimit := 64, routerLifetime := 1800 * second,
+                     options := [.pi p 64 true true hour hour, .pi p 64 true true (24 * hour) (4 * hour)] }
+    coherent ra = false ∧ (verifyRAs ra ra).length = 4 := by
+  decide
+
 /-- A coherent RA compared with itself yields no report. -/
 theorem verify_refl (a : RA) (hc : coherent a = true) : verifyRAs a a = [] := by
   rw [verify_eq_spec]
